@@ -177,10 +177,15 @@ CHECKS = {
                      "Hypothesis-generated values and point lists through gdstk's encoders and decoders, judged by "
                      "arbitrary-precision reference codecs in both directions (gdstk bytes decoded by the reference; "
                      "every alternative legal reference encoding decoded by gdstk; >64-bit encodings must set Overflow). "
-                     "Every case runs on a clang build and on a g++ build of the same sources.",
-                note="Trusted: pbt/oasnum.py (from DESIGN Appendix A.2) and the 6-line GDSII real decoder. Non-minimal "
-                     "integer encodings are limited to 10 bytes.",
-                technique="systematic boundary enumeration + property-based testing (Hypothesis) vs big-integer/Fraction reference codecs"),
+                     "Every case runs on a clang build and on a g++ build of the same sources. Last stage of both tiers: "
+                     "16 coverage-guided libFuzzer campaigns (driver/fuzz_oasis_numbers.cpp, src/oasis.cpp compiled into the "
+                     "target) over the byte-level space of OASIS integers, deltas and reals in both directions, judged inside "
+                     "the target by a second reference codec over unsigned __int128.",
+                note="Trusted: pbt/oasnum.py (from DESIGN Appendix A.2), the 6-line GDSII real decoder and the ~100-line reference "
+                     "codec inside the fuzz target. Non-minimal integer encodings are limited to 10 bytes; non-finite doubles are "
+                     "outside the property's domain and are not judged.",
+                technique="systematic boundary enumeration + property-based testing (Hypothesis) vs big-integer/Fraction reference "
+                          "codecs + coverage-guided fuzzing (libFuzzer, ASan/UBSan) with an in-target reference-codec oracle"),
     "C20": dict(level="exploration", design="4 C20",
                 text="Model-based histories: generated operation sequences over Map/Set/TagMap/StyleMap with keys crafted to "
                      "collide and wrap around the table end, through every growth step to capacity 2048; property-list "
@@ -209,7 +214,7 @@ def main():
             "thorough_cmd": "./check %s --tier thorough" % pid,
             "evidence_file": "/verif/evidence/%s.json" % pid,
             "replay_cmd_template": "./check %s --replay {path}" % pid,
-            "engine": "hypothesis+gdstk_driver",
+            "engine": "hypothesis+gdstk_driver" + ("+libfuzzer" if pid == "C19" else ""),
             "level_claimed": {"category": c["level"], "text": c["text"], "design_ref": "DESIGN.md " + c["design"]},
             "level_note": c["note"],
             "technique": c["technique"],
@@ -229,6 +234,8 @@ def main():
         "engines": [
             {"name": "hypothesis+gdstk_driver", "path": "/verif/pbt", "serves_properties": [c["property_id"] for c in checks],
              "kind_free_text": "Hypothesis (python3-vt) generates abstract cases, a sanitised C++ driver built from /repo's working tree executes them through gdstk's public API, Python reference models are the oracles"},
+            {"name": "libfuzzer", "path": "/verif/driver/fuzz_oasis_numbers.cpp", "serves_properties": ["C19"],
+             "kind_free_text": "libFuzzer target (clang -fsanitize=fuzzer,address,undefined) with src/oasis.cpp compiled into it; started by pbt/prop_c19.py as the last stage of C19, one campaign per worker; crash artifacts are minimised and stored as replay cases"},
         ],
         "checks": checks,
         "not_applicable": na,
